@@ -89,6 +89,76 @@ pub enum Topo {
     TwoFamilies,
     /// the same with the target on [::1] first: B, A, B, A
     TwoFamilies6,
+    /// SOCKS5 only, and only where a socket bound to [::] also takes IPv4: the SOCKS listener is
+    /// bound to the DUAL-STACK wildcard address (remote specification `[::]:PORT:socks`, so the UDP
+    /// relay of an association is bound to [::]:0) and the local application does everything over
+    /// IPv4: control connection to 127.0.0.1:PORT, datagrams from a 127.0.0.1 socket to
+    /// 127.0.0.1:BND.PORT (the relay sees its peer as ::ffff:127.0.0.1). One local client
+    DualV4,
+    /// the same with three local clients (one association each, interleaved)
+    DualV4Three,
+    /// the same listener, and the local application does everything over IPv6: control connection
+    /// to [::1]:PORT, datagrams from a [::1] socket to [::1]:BND.PORT (a plain IPv6 peer; only
+    /// where [::1] exists). One local client
+    DualV6,
+    /// the same with three local clients
+    DualV6Three,
+}
+
+/// testing aid: the probe of the dual-stack wildcard address reports failure (what a machine
+/// with net.ipv6.bindv6only=1 or without IPv6 would see)
+const DUAL_LISTENER_FORCE_SKIP_ENV: &str = "VERIF_C01_UDP_DUAL_LISTENER_FORCE_SKIP";
+
+/// Can the dual-stack-listener topologies run here? (why not, for a local application that
+/// uses IPv4, resp. one that uses IPv6; None: they can). Probed once: a TCP listener and a UDP
+/// socket bound to [::]:0 have to be reachable over the loopback address of that family.
+pub fn dual_listener_unavailable(app_v6: bool) -> Option<String> {
+    static PROBE: std::sync::OnceLock<(Option<String>, Option<String>)> = std::sync::OnceLock::new();
+    let r = PROBE.get_or_init(|| {
+        use std::net::{Ipv6Addr, TcpListener as StdListener, TcpStream as StdStream, UdpSocket as StdUdp};
+        if std::env::var_os(DUAL_LISTENER_FORCE_SKIP_ENV).is_some() {
+            let why = format!("a socket bound to [::] cannot be had [forced by {DUAL_LISTENER_FORCE_SKIP_ENV}]");
+            return (Some(why.clone()), Some(why));
+        }
+        let both = |why: String| (Some(why.clone()), Some(why));
+        let tcp = match StdListener::bind("[::]:0") {
+            Ok(l) => l,
+            Err(e) => return both(format!("cannot bind a TCP listener to [::]:0: {e}")),
+        };
+        let udp = match StdUdp::bind("[::]:0") {
+            Ok(u) => u,
+            Err(e) => return both(format!("cannot bind a UDP socket to [::]:0: {e}")),
+        };
+        let (Ok(tp), Ok(up)) = (tcp.local_addr().map(|a| a.port()), udp.local_addr().map(|a| a.port())) else {
+            return both("cannot read back the address of a socket bound to [::]:0".into());
+        };
+        let _ = udp.set_read_timeout(Some(Duration::from_secs(2)));
+        let reach = |ip: IpAddr| -> Option<String> {
+            if let Err(e) = StdStream::connect_timeout(&SocketAddr::new(ip, tp), Duration::from_secs(5)) {
+                return Some(format!("a TCP listener bound to [::] is not reachable over {ip}: {e}"));
+            }
+            let from = match StdUdp::bind(SocketAddr::new(ip, 0)) {
+                Ok(s) => s,
+                Err(e) => return Some(format!("cannot bind a UDP socket to {ip}: {e}")),
+            };
+            let mut buf = [0u8; 16];
+            for _ in 0..3 {
+                if from.send_to(b"probe", SocketAddr::new(ip, up)).is_err() {
+                    continue;
+                }
+                if let Ok((5, src)) = udp.recv_from(&mut buf) {
+                    if src.ip().to_canonical() == ip {
+                        return None;
+                    }
+                }
+            }
+            Some(format!("a UDP socket bound to [::] does not receive what is sent to {ip} (net.ipv6.bindv6only = 1?)"))
+        };
+        let v4 = reach(IpAddr::from([127, 0, 0, 1]));
+        let v6 = if ipv6_loopback() { reach(IpAddr::V6(Ipv6Addr::LOCALHOST)) } else { Some("this machine has no IPv6 loopback address [::1]".into()) };
+        (v4, v6)
+    });
+    if app_v6 { r.1.clone() } else { r.0.clone() }
 }
 
 /// Does this machine (network namespace) have the IPv6 loopback address, for UDP sockets too?
@@ -127,6 +197,40 @@ impl Topo {
     /// the two-address-families topologies (SOCKS5 UDP with IP-typed headers only, one payload
     /// length, both tiers, only where [::1] exists)
     pub const FAMILIES: [Topo; 2] = [Topo::TwoFamilies, Topo::TwoFamilies6];
+    /// the dual-stack-listener topologies (SOCKS5 UDP only; the local application uses IPv4, resp.
+    /// IPv6, for the control connection and for the relay; both tiers; only where a socket bound
+    /// to [::] is reachable over the loopback address of that family)
+    pub const DUAL_LISTENER: [Topo; 4] = [Topo::DualV4, Topo::DualV4Three, Topo::DualV6, Topo::DualV6Three];
+    /// Some(the local application uses IPv6) for the dual-stack-listener topologies
+    pub fn dual_listener(self) -> Option<bool> {
+        match self {
+            Topo::DualV4 | Topo::DualV4Three => Some(false),
+            Topo::DualV6 | Topo::DualV6Three => Some(true),
+            _ => None,
+        }
+    }
+    /// number of local clients of a dual-stack-listener topology
+    pub fn dual_listener_clients(self) -> usize {
+        if matches!(self, Topo::DualV4Three | Topo::DualV6Three) { 3 } else { 1 }
+    }
+    /// what the violation keys of this topology end in (the ordinary topologies: nothing)
+    pub fn key_suffix(self) -> &'static str {
+        match self.dual_listener() {
+            Some(false) => ".dual-stack-listener-ipv4-app",
+            Some(true) => ".dual-stack-listener-ipv6-app",
+            None => "",
+        }
+    }
+    /// why this topology cannot be run on this machine (None: it can)
+    pub fn unavailable(self) -> Option<String> {
+        if let Some(v6) = self.dual_listener() {
+            return dual_listener_unavailable(v6);
+        }
+        if self.two_families() && !ipv6_loopback() {
+            return Some("this machine has no IPv6 loopback address [::1]".into());
+        }
+        None
+    }
     pub fn two_families(self) -> bool {
         matches!(self, Topo::TwoFamilies | Topo::TwoFamilies6)
     }
@@ -162,10 +266,14 @@ impl Topo {
             Topo::StrayTruncated => "stray-datagram-truncated-ipv4-header-to-relay",
             Topo::TwoFamilies => "1-association-2-targets-ipv4-then-ipv6",
             Topo::TwoFamilies6 => "1-association-2-targets-ipv6-then-ipv4",
+            Topo::DualV4 => "dual-stack-listener-ipv4-application-1-client",
+            Topo::DualV4Three => "dual-stack-listener-ipv4-application-3-clients",
+            Topo::DualV6 => "dual-stack-listener-ipv6-application-1-client",
+            Topo::DualV6Three => "dual-stack-listener-ipv6-application-3-clients",
         }
     }
     pub fn parse(s: &str) -> Option<Self> {
-        Self::ALL.into_iter().chain(Self::SLOW).chain(Self::STRAY).chain(Self::FAMILIES).find(|e| e.name() == s)
+        Self::ALL.into_iter().chain(Self::SLOW).chain(Self::STRAY).chain(Self::FAMILIES).chain(Self::DUAL_LISTENER).find(|e| e.name() == s)
     }
 }
 
@@ -188,6 +296,8 @@ impl UdpCase {
             "exchanges_per_leg": self.exchanges(),
             "udp_prune_timeout_s": prune_timeout().as_secs(),
             "stray_datagram_hex": self.topo.stray().map(|(d, _)| vcommon::report::hex(d)),
+            "socks_listener": self.topo.dual_listener().map(|_| "[::]:PORT (remote specification [::]:PORT:socks; the UDP relay of an association is bound to [::]:0)"),
+            "application_uses": self.topo.dual_listener().map(|v6| if v6 { "[::1] for the control connection, for its UDP socket and (BND.ADDR being unspecified) for the relay address" } else { "127.0.0.1 for the control connection, for its UDP socket and (BND.ADDR being unspecified) for the relay address" }),
             "targets": if self.topo.two_families() { json!((0..self.exchanges()).map(|q| if (self.target_idx(0, q) == 0) == (self.topo == Topo::TwoFamilies) { "127.0.0.1:P (ATYP 1)" } else { "[::1]:Q (ATYP 4)" }).collect::<Vec<_>>()) } else { Value::Null },
             "payload_rule": "payload length of exchange seq = len, except in the varying-lengths topology (len, 3, len+500, 0, len+1); request(len, leg, seq): len 1 -> [0x40|leg<<4|seq]; len>=2 -> [0xC0|leg, seq, xorshift64* stream]; reply = request XOR mask bytewise, mask 0xA5 for target A and 0x5A for target B; exchange seq goes to target seq%2 in the two-target topologies; see c01_udp.rs",
             "requests_hex": (0..self.legs().len()).map(|l| (0..self.exchanges().min(4)).map(|q| { let r = request(self.len_at(q), l, q); vcommon::report::hex(&r[..r.len().min(16)]) }).collect::<Vec<_>>()).collect::<Vec<_>>(),
@@ -209,6 +319,8 @@ impl UdpCase {
             (Topo::TwoPorts | Topo::TwoHosts | Topo::Steady | Topo::Idle | Topo::IdleGap, _) => vec![(0, 0)],
             (Topo::StrayShort | Topo::StrayAtyp | Topo::StrayTruncated, _) => vec![(0, 0)],
             (Topo::TwoFamilies | Topo::TwoFamilies6, _) => vec![(0, 0)],
+            (Topo::DualV4 | Topo::DualV6, _) => vec![(0, 0)],
+            (Topo::DualV4Three | Topo::DualV6Three, _) => vec![(0, 0), (1, 1), (2, 2)],
         }
     }
     /// number of request datagrams (with distinct payloads) a leg sends
@@ -229,6 +341,9 @@ impl UdpCase {
         if self.topo.two_families() {
             // (a domain-typed header would need a name for [::1]; the IP-typed headers say it all)
             return self.kind == UKind::SocksIp;
+        }
+        if self.topo.dual_listener().is_some() {
+            return self.kind.socks();
         }
         !(matches!(self.topo, Topo::TwoPorts | Topo::TwoHosts) || self.topo.stray().is_some()) || self.kind.socks()
     }
@@ -293,6 +408,8 @@ pub struct UdpStats {
     pub socks_header_addr_is_target: u64,
     pub socks_header_addr_is_client: u64,
     pub socks_header_addr_other: u64,
+    /// (also counted in one of the three above) the address is an IPv4-mapped IPv6 address (ATYP 4, ::ffff:a.b.c.d)
+    pub socks_header_addr_ipv4_mapped: u64,
     pub retransmissions: u64,
     pub duplicates: u64,
     pub target_sources: u64,
@@ -774,6 +891,11 @@ pub async fn run_udp(envr: &Env, case: &UdpCase, deadline_s: u64, short_waits: b
     let fam = case.kind.family();
     let lab = case.label();
     let socks = case.kind.socks();
+    // dual-stack-listener topologies: the SOCKS listener is on [::], the local application uses
+    // ONE address family for everything (everywhere else: listener and application on 127.0.0.1)
+    let dual_listener = case.topo.dual_listener();
+    let app_ip: IpAddr = if dual_listener == Some(true) { IpAddr::V6(std::net::Ipv6Addr::LOCALHOST) } else { IpAddr::from([127, 0, 0, 1]) };
+    let key_sfx = case.topo.key_suffix();
     let machinery = |m: String| UdpOutcome {
         failures: vec![Failure { key: "machinery".into(), desc: m, deadline: false }],
         obs: json!({"machinery": true}),
@@ -788,6 +910,10 @@ pub async fn run_udp(envr: &Env, case: &UdpCase, deadline_s: u64, short_waits: b
     // ---- target
     if !case.valid() {
         return machinery(format!("{lab}: not a point of the matrix"));
+    }
+    if let Some(why) = case.topo.unavailable() {
+        // (the matrix and the replay leave these points out and say so; nobody else asks)
+        return machinery(format!("{lab}: cannot be run on this machine: {why}"));
     }
     let n_targets = case.n_targets();
     let mut tsocks: Vec<Arc<UdpSocket>> = Vec::new();
@@ -826,7 +952,7 @@ pub async fn run_udp(envr: &Env, case: &UdpCase, deadline_s: u64, short_waits: b
     let mut leases = Vec::new();
     let remotes: Vec<String> = if socks {
         let l = env::lease_port(false);
-        let s = format!("127.0.0.1:{}:socks", l.port);
+        let s = if dual_listener.is_some() { format!("[::]:{}:socks", l.port) } else { format!("127.0.0.1:{}:socks", l.port) };
         leases.push(l);
         vec![s]
     } else {
@@ -850,13 +976,14 @@ pub async fn run_udp(envr: &Env, case: &UdpCase, deadline_s: u64, short_waits: b
     let mut controls: Vec<TcpStream> = Vec::new();
     let mut setup_fail: Option<(String, String, bool)> = None;
     if socks {
-        let paddr = SocketAddr::from(([127, 0, 0, 1], leases[0].port));
+        let paddr = SocketAddr::new(app_ip, leases[0].port);
         for e in 0..n_entries {
             match env::connect_tcp_entry(paddr, &client_done, deadline).await {
                 Ok(mut s) => match tokio::time::timeout(deadline.saturating_duration_since(Instant::now()), proto::socks5_udp_associate(&mut s)).await {
                     Ok(Ok(mut a)) => {
                         if a.ip().is_unspecified() {
-                            a.set_ip(IpAddr::from([127, 0, 0, 1]));
+                            // "the address the proxy was reached at", in the family the application uses
+                            a.set_ip(app_ip);
                         }
                         entry_addrs.push(a);
                         controls.push(s);
@@ -903,7 +1030,7 @@ pub async fn run_udp(envr: &Env, case: &UdpCase, deadline_s: u64, short_waits: b
     if setup_fail.is_none() {
         let mut notes = Vec::new();
         for _ in 0..n_socks {
-            let s = match UdpSocket::bind("127.0.0.1:0").await {
+            let s = match UdpSocket::bind(SocketAddr::new(app_ip, 0)).await {
                 Ok(s) => Arc::new(s),
                 Err(e) => return machinery(format!("bind local udp client: {e}")),
             };
@@ -969,7 +1096,8 @@ pub async fn run_udp(envr: &Env, case: &UdpCase, deadline_s: u64, short_waits: b
     drop(controls);
     let local_addrs: Vec<SocketAddr> = socks_v.iter().map(|s| s.local_addr().expect("local addr")).collect();
 
-    let mut push = |key: String, desc: String, dl: bool| failures.push(Failure { key, desc: format!("{lab}: {desc}{subject_note}"), deadline: dl });
+    // (the keys of the dual-stack-listener topologies end in the topology: what fails there only is told apart)
+    let mut push = |key: String, desc: String, dl: bool| failures.push(Failure { key: if key == "machinery" { key } else { format!("{key}{key_sfx}") }, desc: format!("{lab}: {desc}{subject_note}"), deadline: dl });
     if let Some((k, d, dl)) = setup_fail {
         if !k.is_empty() {
             push(k, d, dl);
@@ -1079,9 +1207,12 @@ pub async fn run_udp(envr: &Env, case: &UdpCase, deadline_s: u64, short_waits: b
                             push("udp.socks5.header-frag".into(), format!("a relayed reply carries FRAG={} although fragmentation was never used", h.frag), false);
                             continue;
                         }
+                        if matches!(&h.addr, UdpAddr::Ip(IpAddr::V6(a)) if a.to_ipv4_mapped().is_some()) {
+                            stats.socks_header_addr_ipv4_mapped += 1;
+                        }
                         match &h.addr {
                             UdpAddr::Ip(ip) if target_addrs.iter().any(|t| *ip == t.ip() && h.port == t.port()) => stats.socks_header_addr_is_target += 1,
-                            UdpAddr::Ip(ip) if *ip == local_addrs[si].ip() && h.port == local_addrs[si].port() => stats.socks_header_addr_is_client += 1,
+                            UdpAddr::Ip(ip) if ip.to_canonical() == local_addrs[si].ip() && h.port == local_addrs[si].port() => stats.socks_header_addr_is_client += 1,
                             _ => stats.socks_header_addr_other += 1,
                         }
                         &raw[h.data_at..]
